@@ -67,6 +67,15 @@ def _pair_of(a):
         if repr(x) <= repr(y):
             return (x, y), (lambda rel, op=a[1]: _REL[op][rel])
         return (y, x), (lambda rel, op=a[1]: _REL[op][_FLIP[rel]])
+    if a[0] == 'icmp' and a[1] in ('lt', 'le', 'eq', 'gt', 'ge', 'ne'):
+        # integers: exactly one of <, =, > (never unordered: 'un' is given the same truth as 'gt' and so adds no case)
+        x, y = a[2], a[3]
+        tab = dict(_REL[a[1]])
+        tab['un'] = tab['gt']
+        if repr(x) <= repr(y):
+            return ('int', x, y), (lambda rel, tab=tab: tab[rel])
+        ftab = {'lt': tab['gt'], 'eq': tab['eq'], 'gt': tab['lt'], 'un': tab['lt']}
+        return ('int', y, x), (lambda rel, ftab=ftab: ftab[rel])
     if a[0] == 'unord':
         x, y = a[1], a[2]
         key = (x, y) if repr(x) <= repr(y) else (y, x)
